@@ -345,6 +345,160 @@ def rule_rca(repo, rep):
                   '_inv_sqrtm normalises to %r, documented %r' % (v.d, want))
 
 
+def rule_rca_whitening(repo, rep):
+  """W C W^T = I for the stored transformation W and the inner covariance C,
+  derived from the single identity isq(S) S isq(S) = I (the spectral form of
+  _inv_sqrtm, certified by R-FORM:rca-inverse-square-root)."""
+  R = 'R-FORM:rca-whitens-the-inner-covariance'
+  rep.rule(R, 'on every path of RCA.fit the stored transformation has the '
+           'form W = _inv_sqrtm(S) R with R C R^T = S for the inner '
+           'covariance C (R = I, S = C without reduction; R = A^T, '
+           'S = A^T C A with it), so that W C W^T = I')
+  h = repo.get_func('rca.RCA.fit')
+  rep.analysed(h)
+  isq_args = {}
+  counter = [0]
+
+  def dn(e):
+    d = repo.dotted(h.module, e)
+    return canon(d) if d else None
+
+  def opaque(kind, node):
+    counter[0] += 1
+    nm = 'o%d@%d' % (counter[0], getattr(node, 'lineno', 0))
+    if kind == 'vec':
+      return ('vec', SExpr.base(('w', nm)))
+    return (kind, Poly.sym(nm, 'mat') if kind == 'mat' else None)
+
+  def ev(e, env):
+    if isinstance(e, ast.Name):
+      return env.get(e.id) or ('?', None)
+    if isinstance(e, ast.Attribute) and e.attr == 'T':
+      k, v = ev(e.value, env)
+      return (k, v.transpose()) if k == 'mat' else (k, v)
+    if isinstance(e, ast.Attribute) and e.attr == 'real':
+      return ev(e.value, env)
+    if isinstance(e, ast.BinOp) and isinstance(e.op, ast.MatMult):
+      (k1, a), (k2, b) = ev(e.left, env), ev(e.right, env)
+      if k1 == k2 == 'mat':
+        return ('mat', a.mul(b, 'mat'))
+      return ('?', None)
+    if isinstance(e, ast.BinOp) and isinstance(e.op, (ast.Div, ast.Mult)):
+      (k1, a), (k2, b) = ev(e.left, env), ev(e.right, env)
+      if k1 == 'mat' and k2 == 'vec':
+        # column scaling: M * v = M Diag(v), M / v = M Diag(v)^-1
+        sx = b if isinstance(e.op, ast.Mult) else b.pow(Fraction(-1))
+        return ('mat', a.mul(Poly.diag(sx), 'mat'))
+      return ('?', None)
+    if isinstance(e, ast.Call):
+      d = dn(e.func)
+      args = list(e.args)
+      if isinstance(e.func, ast.Attribute) and e.func.attr == 'dot' and \
+              d is None and len(args) == 1:
+        args = [e.func.value, args[0]]
+        d = canon('numpy.dot')
+      if d == canon('numpy.dot') and len(args) == 2:
+        (k1, a), (k2, b) = ev(args[0], env), ev(args[1], env)
+        if k1 == k2 == 'mat':
+          return ('mat', a.mul(b, 'mat'))
+        return ('?', None)
+      if d in (canon('numpy.atleast_2d'), canon('numpy.asarray'),
+               canon('numpy.array')) and len(args) == 1:
+        return ev(args[0], env)
+      if d == canon('numpy.sqrt') and len(args) == 1:
+        k, v = ev(args[0], env)
+        if k == 'vec':
+          return ('vec', v.pow(Fraction(1, 2)))
+        return ('?', None)
+      if d == canon('numpy.cov'):
+        counter[0] += 1
+        return ('mat', Poly.sym('cov@%d' % e.lineno, 'mat', symmetric=True))
+      if d in (canon('numpy.diag'), canon('numpy.diagonal')) and \
+              len(args) == 1 and ev(args[0], env)[0] == 'mat':
+        return opaque('vec', e)
+      if d == canon('numpy.einsum') and args and \
+              isinstance(args[0], ast.Constant) and \
+              isinstance(args[0].value, str) and '->' in args[0].value:
+        out = args[0].value.split('->')[1].strip()
+        return opaque('vec' if len(out) == 1 else
+                      'mat' if len(out) == 2 else '?', e)
+      fn = repo.func_by_dotted(repo.dotted(h.module, e.func) or '')
+      if fn is not None and fn.key == 'rca._inv_sqrtm' and len(args) == 1:
+        k, v = ev(args[0], env)
+        if k == 'mat':
+          nm = 'isq[%r]' % (v,)
+          isq_args[nm] = v
+          return ('mat', Poly.sym(nm, 'mat', symmetric=True))
+        return ('?', None)
+      if isinstance(e.func, ast.Attribute) and e.func.attr == 'diagonal' \
+              and ev(e.func.value, env)[0] == 'mat':
+        return opaque('vec', e)
+    if isinstance(e, ast.Subscript):
+      # a selection of columns / rows of a matrix: an unconstrained matrix
+      return opaque('mat', e)
+    return ('?', None)
+
+  stores = []
+
+  def walk(body, env, cov_sym):
+    for i, st in enumerate(body):
+      if isinstance(st, ast.If):
+        for br in (st.body, st.orelse):
+          walk(list(br) + list(body[i + 1:]), dict(env), cov_sym)
+        return
+      if isinstance(st, ast.Assign) and len(st.targets) == 1:
+        tg = st.targets[0]
+        if isinstance(tg, ast.Name):
+          val = ev(st.value, env)
+          env[tg.id] = val
+          if cov_sym[0] is None and isinstance(st.value, ast.Call) and \
+                  any(dn(c.func) == canon('numpy.cov') and c.args and
+                      ast.unparse(c.args[0]) in centred
+                      for c in ast.walk(st.value) if isinstance(c, ast.Call)):
+            cov_sym = [val]
+        elif isinstance(tg, ast.Tuple):
+          for el in tg.elts:
+            if isinstance(el, ast.Name):
+              env[el.id] = opaque('mat', st)
+        elif ast.unparse(tg) == 'self.components_':
+          stores.append((st, ev(st.value, env), cov_sym[0]))
+      elif isinstance(st, ast.Return):
+        return
+
+  centred = set()
+  for n in ast.walk(h.node):
+    if isinstance(n, ast.Assign) and isinstance(n.value, ast.Call) and \
+            (repo.dotted(h.module, n.value.func) or '').endswith(
+                '_chunk_mean_centering') and \
+            isinstance(n.targets[0], ast.Tuple):
+      centred.add(ast.unparse(n.targets[0].elts[1]))
+  walk(h.node.body, {}, [None])
+  if not stores:
+    rep.unknown(R, 'rca.RCA.fit', site(h), 'no store of components_ found')
+  for k_, (st, (kind, W), C) in enumerate(stores):
+    key = 'rca.RCA.fit:store%d' % k_
+    if C is None or C[0] != 'mat':
+      rep.unknown(R, key, site(h, st), 'inner covariance not identified')
+      continue
+    if kind != 'mat':
+      rep.unknown(R, key, site(h, st), 'stored expression %s is outside the '
+                  'matrix forms evaluated' % ast.unparse(st.value))
+      continue
+    T = W.mul(C[1], 'mat').mul(W.transpose(), 'mat')
+    ok = False
+    if len(T.terms) == 1:
+      (m, c), = T.terms.items()
+      if c == 1 and len(m) >= 3 and m[0] == m[-1] and m[0][0] == 's' and \
+              m[0][1] in isq_args:
+        ok = Poly({tuple(m[1:-1]): Fraction(1)}, 'mat') == isq_args[m[0][1]]
+    if ok:
+      rep.derived(R, key, site(h, st), sample=dict(rule=R, W=repr(W)))
+    else:
+      rep.refuted(R, key, site(h, st), 'W C W^T = %r does not reduce to the '
+                  'identity by isq(S) S isq(S) = I (W = %r)' % (T, W))
+  rep.floor('RCA stores of components_', len(stores), 2)
+
+
 def rule_lfda(repo, rep):
   R = 'R-FORM:lfda-ordering-and-embedding'
   rep.rule(R, 'LFDA keeps the eigenvectors in order of decreasing eigenvalue '
@@ -573,6 +727,7 @@ def check(repo, rep, tier):
   rule_cov_sites(repo, rep)
   rule_covariance(repo, rep)
   rule_rca(repo, rep)
+  rule_rca_whitening(repo, rep)
   rule_lfda(repo, rep)
   rule_lfda_scatter(repo, rep)
 
